@@ -24,11 +24,13 @@ namespace SafeC.Props.C05Ev
 open SafeC Gen
 
 /-- the loop emits nothing -/
-theorem wcaseLoop_silent (f : Nat → Nat) (n d : Nat) : EV.Silent (wcaseLoop f n d) (fun _ => True) := by
+theorem wcaseLoop_silent (rb : Bool) (f : Nat → Nat) (n d : Nat) : EV.Silent (wcaseLoop rb f n d) (fun _ => True) := by
   induction n generalizing d with
   | zero =>
     unfold wcaseLoop
-    exact EV.bindSilent (EV.loadP d) (fun _ _ => EV.pure _ ⟨rfl, trivial⟩)
+    split
+    · exact EV.bindSilent (EV.loadP d) (fun _ _ => EV.pure _ ⟨rfl, trivial⟩)
+    · exact EV.pure _ ⟨rfl, trivial⟩
   | succ n ih =>
     unfold wcaseLoop
     refine EV.bindSilent (EV.loadP d) (fun c _ => ?_)
@@ -84,12 +86,12 @@ theorem wcaseCode_eok_iff (src slen : Nat) (srcbos : Bos) :
             exact Or.inr ⟨hs, by omega, fun b hb' => by cases hb'; omega⟩
 
 /-- the code returned is `wcaseCode` of the arguments, and the events are what the discipline asks for that code -/
-theorem wcase_s_code (f : Nat → Nat) (src slen : Nat) (srcbos : Bos) :
-    EV (wcase_s f src slen srcbos) (fun r es => r = wcaseCode src slen srcbos ∧ Once .str r es) := by
+theorem wcase_s_code (rb : Bool) (f : Nat → Nat) (src slen : Nat) (srcbos : Bos) :
+    EV (wcase_s rb f src slen srcbos) (fun r es => r = wcaseCode src slen srcbos ∧ Once .str r es) := by
   have fail : ∀ c, c ≠ EOK → EV (failS c) (fun r es => r = c ∧ Once .str r es) := fun c hc =>
     (EV.failS c).conseq (fun r es ⟨h1, h2⟩ => ⟨h1, by subst h1; exact Or.inr ⟨hc, h2⟩⟩)
-  have body : EV (do wcaseLoop f slen src; pure EOK : Prog Nat) (fun r es => r = EOK ∧ Once .str r es) :=
-    EV.bindSilent (wcaseLoop_silent f slen src) (fun _ _ => EV.pure _ ⟨rfl, Or.inl ⟨rfl, rfl⟩⟩)
+  have body : EV (do wcaseLoop rb f slen src; pure EOK : Prog Nat) (fun r es => r = EOK ∧ Once .str r es) :=
+    EV.bindSilent (wcaseLoop_silent rb f slen src) (fun _ _ => EV.pure _ ⟨rfl, Or.inl ⟨rfl, rfl⟩⟩)
   by_cases h0 : slen = 0
   · simp only [wcase_s, wcaseCode, h0, if_true]
     exact EV.pure _ ⟨rfl, Or.inl ⟨rfl, rfl⟩⟩
@@ -110,14 +112,14 @@ theorem wcase_s_code (f : Nat → Nat) (src slen : Nat) (srcbos : Bos) :
     · simp only [wcase_s, wcaseCode, h0, hs, hm, hb, if_false]
       exact body
 
-theorem wcase_s_ev (f : Nat → Nat) (src slen : Nat) (srcbos : Bos) : EV (wcase_s f src slen srcbos) (Once .str) :=
-  (wcase_s_code f src slen srcbos).conseq (fun _ _ h => h.2)
+theorem wcase_s_ev (rb : Bool) (f : Nat → Nat) (src slen : Nat) (srcbos : Bos) : EV (wcase_s rb f src slen srcbos) (Once .str) :=
+  (wcase_s_code rb f src slen srcbos).conseq (fun _ _ h => h.2)
 
 theorem wcslwr_s_ev (cfg : Cfg) (src slen : Nat) (srcbos : Bos) : EV (wcslwr_s cfg src slen srcbos) (Once .str) :=
-  wcase_s_ev _ src slen srcbos
+  wcase_s_ev _ _ src slen srcbos
 
 theorem wcsupr_s_ev (cfg : Cfg) (src slen : Nat) (srcbos : Bos) : EV (wcsupr_s cfg src slen srcbos) (Once .str) :=
-  wcase_s_ev _ src slen srcbos
+  wcase_s_ev _ _ src slen srcbos
 
 /-- wcslwr_s: all arguments, all memory — EOK and no event, or code ≠ EOK and exactly that one str-handler event -/
 theorem wcslwr_s_C05 (cfg : Cfg) (src slen : Nat) (srcbos : Bos) :
@@ -128,11 +130,11 @@ theorem wcsupr_s_C05 (cfg : Cfg) (src slen : Nat) (srcbos : Bos) :
 
 /-- what `wcase_s_code` means for runs: every returning call hands back the code the doc comment assigns to its
 arguments — a documented violation is reported exactly once with its code, a call without one reports nothing -/
-theorem wcase_s_reports (f : Nat → Nat) (src slen : Nat) (srcbos : Bos) (st : St) (r : Nat) (st' : St)
-    (he : exec (wcase_s f src slen srcbos) st = .ok (r, st')) :
+theorem wcase_s_reports (rb : Bool) (f : Nat → Nat) (src slen : Nat) (srcbos : Bos) (st : St) (r : Nat) (st' : St)
+    (he : exec (wcase_s rb f src slen srcbos) st = .ok (r, st')) :
     r = wcaseCode src slen srcbos ∧
       ((r = EOK ∧ st'.events = st.events) ∨ (r ≠ EOK ∧ st'.events = st.events ++ [.handler .str r])) := by
-  obtain ⟨es, h1, h2, h3⟩ := (wcase_s_code f src slen srcbos).sound st he
+  obtain ⟨es, h1, h2, h3⟩ := (wcase_s_code rb f src slen srcbos).sound st he
   refine ⟨h2, ?_⟩
   rcases h3 with ⟨hr, hes⟩ | ⟨hr, hes⟩
   · left; subst hes; exact ⟨hr, by simpa using h1⟩
@@ -143,14 +145,14 @@ theorem wcslwr_s_reports (cfg : Cfg) (src slen : Nat) (srcbos : Bos) (st : St) (
     (he : exec (wcslwr_s cfg src slen srcbos) st = .ok (r, st')) :
     r = wcaseCode src slen srcbos ∧
       ((r = EOK ∧ st'.events = st.events) ∨ (r ≠ EOK ∧ st'.events = st.events ++ [.handler .str r])) :=
-  wcase_s_reports _ src slen srcbos st r st' he
+  wcase_s_reports _ _ src slen srcbos st r st' he
 
 /-- wcsupr_s: the code is the one the doc comment assigns -/
 theorem wcsupr_s_reports (cfg : Cfg) (src slen : Nat) (srcbos : Bos) (st : St) (r : Nat) (st' : St)
     (he : exec (wcsupr_s cfg src slen srcbos) st = .ok (r, st')) :
     r = wcaseCode src slen srcbos ∧
       ((r = EOK ∧ st'.events = st.events) ∨ (r ≠ EOK ∧ st'.events = st.events ++ [.handler .str r])) :=
-  wcase_s_reports _ src slen srcbos st r st' he
+  wcase_s_reports _ _ src slen srcbos st r st' he
 
 theorem wcaseCode_mem (src slen : Nat) (srcbos : Bos) : wcaseCode src slen srcbos ∈ [EOK, ESNULLP, ESLEMAX, EOVERFLOW] := by
   unfold wcaseCode
